@@ -154,7 +154,7 @@ func (r *RequestContext) Outputs() map[string]any {
 
 func (r *RequestContext) Finalize() (*envoy_auth.CheckResponse, error) {
 	if r.err != nil {
-		return nil, r.err
+		return nil, heimdall.WithAuthenticationChallenge(r.err, r.upstreamHeaders)
 	}
 
 	zerolog.Ctx(r.ctx).Debug().Msg("Creating response")
